@@ -156,6 +156,13 @@ class ExprMixin:
         if info is None or info[2] != 'concat' or not z3.is_seq(z3.Const('x', decl.range())) or decl.range() == z3.StringSort():
             return
         _, _, _, params, norm, _, _ = info
+
+        def has_quantifier(t, depth=0):
+            if z3.is_quantifier(t):
+                return True
+            return depth < 40 and z3.is_app(t) and any(has_quantifier(c, depth + 1) for c in t.children())
+        if has_quantifier(norm):
+            return      # pieces selected by a quantified condition: z3 rejects the instantiated schema (sort error inside the solver)
         n, k = z3.Int('n!p'), z3.Int('k!p')
         I = z3.Int('I!')
         app = decl(*(params + [n]))
